@@ -152,6 +152,21 @@ def stopping_game(rng, nmin=4, nmax=14):
     return {"rewards": rewards, "players": kinds, "transition_list": tl, "final_states": finals}
 
 
+def permute_states(rng, g):
+    """The same game under another numbering of its states (state 0 stays the initial state)."""
+    n = len(g["players"])
+    perm = list(range(1, n))
+    rng.shuffle(perm)
+    perm = [0] + perm               # old index -> new index
+    out = {"rewards": [None] * n, "players": [None] * n, "transition_list": [None] * n,
+           "final_states": [perm[f] for f in g["final_states"]]}
+    for i in range(n):
+        out["rewards"][perm[i]] = g["rewards"][i]
+        out["players"][perm[i]] = g["players"][i]
+        out["transition_list"][perm[i]] = [(a, perm[t]) for a, t in g["transition_list"][i]]
+    return out
+
+
 def tiny_game(rng):
     """One- to three-state games: the smallest legal objects."""
     k = rng.randrange(6)
